@@ -457,6 +457,10 @@ Qed.
 Lemma run_op_t st t st' r : WF (L st) -> run_op cfg st t = Some (st', r) -> TxStep st st'.
 Proof.
   intros Hwf. unfold run_op. destruct (t_op t).
+  - intros H. apply run_lim_some in H. unfold run_lop in H. destruct o.
+    + apply TxStep_of_G, (neo_transfer_g _ _ _ _ _ _ _ H).
+    + apply TxStep_of_G, (gas_transfer_g _ _ _ _ _ _ _ _ _ _ H).
+    + apply TxStep_of_G, (vote_g _ _ _ _ _ _ Hwf H).
   - intros H. apply TxStep_of_G, (neo_transfer_g _ _ _ _ _ _ _ H).
   - intros H. apply TxStep_of_G, (gas_transfer_g _ _ _ _ _ _ _ _ _ _ H).
   - intros H. apply TxStep_of_G, (vote_g _ _ _ _ _ _ Hwf H).
